@@ -319,7 +319,12 @@ func isStruct(t types.Type) bool {
 	return ok
 }
 
+var msetType = types.NewNamed(types.NewTypeName(token.NoPos, nil, "MSet", nil), types.Typ[types.Int], nil)
+
 func (e *Engine) layout(t types.Type) []Leaf {
+	if t == msetType {
+		return []Leaf{{"", "MSet", t, "mset"}}
+	}
 	k := t.String()
 	if l, ok := e.layouts[k]; ok {
 		return l
